@@ -1,0 +1,5 @@
+//go:build !verif
+
+package main
+
+func txnRetryLimit() int { return maxTxnRetries }
